@@ -356,7 +356,7 @@ func (d *DefaultStore) GetPipeline(ctx context.Context, id string) (*ledger.Pipe
 		Where("id = ?", id).
 		Scan(ctx)
 	if err != nil {
-		return nil, err
+		return nil, postgres.ResolveError(err)
 	}
 
 	return ret, nil
